@@ -273,6 +273,9 @@ func exploreFrom(sec *Section, body func(*X), o Opts, initial [][]int, start tim
 					capHit.Store(true)
 					stop = true
 				}
+				if !stop && skipPrefixes[fmt.Sprint(t.prefix)] {
+					stop = true // killed an earlier worker; already reported
+				}
 				if !stop {
 					if cf := crashFile; cf != "" && o.CrashTrace {
 						_ = os.WriteFile(cf, []byte(fmt.Sprint(t.prefix)), 0o644)
